@@ -136,3 +136,12 @@ package rlp
 //@   requires s != nil
 //@   modifies *
 //@   atcall Int.SetBytes requires [noLeadingZero] len(buf) == 0 || buf[0] != 0
+
+// ---------------------------------------------------------------- C13: index keys of the derived tries
+// keyIdx is the integer a byte string decodes to (AppendUint64 is its encoder; the encoder/decoder
+// pair for integers is what C16's putint/readSize contracts establish).
+//@ spec func keyIdx(c Content) int
+//@ trusted func AppendUint64(b []byte, i uint64) (r []byte)
+//@   modifies b[_]
+//@   ensures keyIdx(content(r)) == i
+//@   ensures fresh(r) || (sameArray(r, b) && cap(b) > len(b))
